@@ -47,7 +47,7 @@ func runC10(c *Ctx) {
 	// ... and a reader error other than the end of the input ends the call at once (R08.1): treated as "more to come" it
 	// makes the read loop spin on stale bytes for ever. Line breaks held back for a hyphenated word are paid exactly once
 	// (R03.11): re-added on every later line they make Normalize write, and Match count, a quadratic number of lines
-	borrowRules(c, []string{"R08.7", "R08.1"}, runC08)
+	borrowRules(c, []string{"R08.7", "R08.1", "R08.3"}, runC08)
 	c.R.Assume("non-constant index arithmetic (filter[off], hits[idx], diffs[start:end], Tokens[startIndex+startOffset]) is outside what this rule decides")
 	fns := v2LibFuncs(p)
 	c.R.Count("R10.1:functions", len(fns))
@@ -250,6 +250,116 @@ func checkReadLoopProgress(c *Ctx, p *core.Prog) {
 		}
 		c.R.Check(ok2, "R10.3", "tokenizeStream: every iteration of the rune loop decodes (and consumes) a rune", p.Pos(call.Pos()),
 			"the DecodeRune call dominates every back edge of the inner loop", "an iteration of the rune loop can repeat without decoding")
+		// ... and keeps what it consumed: on every way round the loop the scan position ends up behind the decoded rune - or,
+		// where the rune is pushed back (the white space that ends a word is looked at again), the word buffer is emptied, so
+		// that the same rune takes another branch next time. A way round that leaves both where they were repeats for ever.
+		cv, _ := call.(*ssa.Call)
+		sl, _ := call.Common().Args[0].(*ssa.Slice)
+		if cv == nil || sl == nil || sl.Low == nil {
+			continue
+		}
+		idxPhi, _ := sl.Low.(*ssa.Phi)
+		var size ssa.Value
+		for _, r := range *cv.Referrers() {
+			if ex, isEx := r.(*ssa.Extract); isEx && ex.Index == 1 {
+				size = ex
+			}
+		}
+		if idxPhi == nil || idxPhi.Block() != h2 || size == nil {
+			continue
+		}
+		inLoop := func(b *ssa.BasicBlock) bool { return h2.Dominates(b) && reaches(b, h2) }
+		// the word buffer: the []byte loop variable that runes are appended to
+		var bufPhis []*ssa.Phi
+		for _, in := range h2.Instrs {
+			if phi, isPhi := in.(*ssa.Phi); isPhi {
+				if st, isSl := phi.Type().Underlying().(*types.Slice); isSl {
+					if bt, isB := st.Elem().Underlying().(*types.Basic); isB && bt.Kind() == types.Uint8 {
+						bufPhis = append(bufPhis, phi)
+					}
+				}
+			}
+		}
+		nWays, stuck := 0, ""
+		for k, pr := range h2.Preds {
+			if !inLoop(pr) {
+				continue
+			}
+			paths, okP := eng.EnumPaths(h2, pr, func(b *ssa.BasicBlock) bool { return !inLoop(b) }, 20000)
+			if !okP {
+				c.R.Undecided("R10.3", "tokenizeStream: progress of the rune loop", p.Pos(call.Pos()), "too many paths through one iteration")
+				break
+			}
+			for _, pa := range paths {
+				nWays++
+				var resolve func(v ssa.Value, depth int) ssa.Value
+				resolve = func(v ssa.Value, depth int) ssa.Value {
+					phi, isPhi := v.(*ssa.Phi)
+					if !isPhi || depth > 12 || phi.Block() == h2 {
+						return v
+					}
+					for i, b := range pa.Blocks {
+						if b == phi.Block() && i > 0 {
+							for e, pp := range b.Preds {
+								if pp == pa.Blocks[i-1] {
+									return resolve(phi.Edges[e], depth+1)
+								}
+							}
+						}
+					}
+					return v
+				}
+				var adv func(v ssa.Value, depth int) (int, bool)
+				adv = func(v ssa.Value, depth int) (int, bool) {
+					v = resolve(v, 0)
+					if v == ssa.Value(idxPhi) {
+						return 0, true
+					}
+					if bo, isBo := v.(*ssa.BinOp); isBo && depth < 8 && (bo.Op == token.ADD || bo.Op == token.SUB) && resolve(bo.Y, 0) == size {
+						a, okA := adv(bo.X, depth+1)
+						if bo.Op == token.ADD {
+							return a + 1, okA
+						}
+						return a - 1, okA
+					}
+					return 0, false
+				}
+				a, okA := adv(idxPhi.Edges[k], 0)
+				if !okA || a > 0 {
+					continue // advanced (or moved in a way this rule does not read: left to the decode rule above)
+				}
+				// the position did not advance: some word buffer must have been emptied
+				emptied := false
+				for _, bp := range bufPhis {
+					nv := resolve(bp.Edges[k], 0)
+					if cst, isC := nv.(*ssa.Const); isC && cst.IsNil() {
+						emptied = true
+					}
+					if s2, isS := nv.(*ssa.Slice); isS {
+						if hk, isK := core.ConstInt(s2.High); isK && hk == 0 {
+							emptied = true
+						}
+					}
+				}
+				if !emptied && stuck == "" {
+					var parts []string
+					for _, l := range pa.Lits {
+						if len(parts) >= 8 {
+							break
+						}
+						pos := p.Pos(l.Cond.Pos())
+						if i := strings.LastIndex(pos, ":"); i >= 0 {
+							pos = pos[i+1:]
+						}
+						parts = append(parts, fmt.Sprintf("%s=%v", pos, l.Truth))
+					}
+					stuck = "branch decisions (line=outcome): " + strings.Join(parts, " ")
+				}
+			}
+		}
+		c.R.Check(stuck == "", "R10.3", "tokenizeStream: no way round the rune loop leaves the scan position and the word buffer as they were", p.Pos(call.Pos()),
+			fmt.Sprintf("%d ways round the loop: each ends behind the decoded rune, or pushes it back with the word buffer emptied", nWays),
+			"a way round the rune loop pushes the decoded rune back (or never steps over it) and leaves the word buffer as it was: the next iteration decodes the same rune in the same state, for ever; "+stuck)
 	}
 }
 
